@@ -324,6 +324,32 @@ func runC14(c *core.Ctx) core.Meta {
 		st4.Ob(false)
 		c.ReportAt("R14.4", u.Target.Fn(), u.Target.Instr.Pos(), "passBarrier:guard", "the barrier is released on a path that did not find every wavefront of the group at the barrier")
 	}
+	// R14.7 the release reaches every wavefront of the group, not only those that found room in the barrier buffer
+	st7 := c.Rule("R14.7", "passBarrier makes every unfinished wavefront of the work-group ready: each call that sets a wavefront ready (UpdatePCAndSetReady), helpers of passBarrier expanded, takes a wavefront drawn from the work-group's own wavefront list (wg.Wfs). A wavefront that reaches s_barrier while the barrier buffer is full waits in state WfAtBarrier without an entry in the buffer; a release that walks the buffer leaves it at the barrier for ever, and later barriers of the group look complete without it", 1)
+	if fn := c.MustFunc("R14.7", cuPkg, "SchedulerImpl.passBarrier"); fn != nil {
+		c.MarkAnalysed(fn)
+		g := core.BuildGraph(fn, 3, func(cal *ssa.Function) bool { return cal.Pkg == fn.Pkg })
+		found := 0
+		for _, n := range g.Nodes {
+			cc := core.CallOf(n.Instr)
+			if cc == nil || cc.StaticCallee() == nil || cc.StaticCallee().Name() != "UpdatePCAndSetReady" {
+				continue
+			}
+			found++
+			st7.Instances++
+			arg := cc.Args[len(cc.Args)-1]
+			pv := provThroughFrames(prov, n, arg)
+			ok := strings.Contains(pv, ".Wfs") && !strings.Contains(pv, "barrierBuffer")
+			st7.Ob(ok)
+			st7.Sample("passBarrier: the wavefront set ready is %s", short(pv))
+			if !ok {
+				c.ReportAt("R14.7", n.Fn(), n.Instr.Pos(), "release:not-from-wg-list", "the wavefront that is set ready is "+short(pv)+", not an element of the work-group's wavefront list: wavefronts of the group that wait at the barrier without an entry in the barrier buffer (it was full when they arrived) are never released")
+			}
+		}
+		if found == 0 {
+			c.ReportAt("R14.7", fn, fn.Pos(), "release:none", "passBarrier sets no wavefront ready")
+		}
+	}
 	// emulator
 	if fn := c.MustFunc("R14.4", emuPkg, "ComputeUnit.resolveBarrier"); fn != nil {
 		st4.Instances++
